@@ -54,7 +54,7 @@ pub fn replay(ctx: &mut Ctx, v: &Value) -> Result<(), String> {
         "tok" | "tok-e2e" => tok::replay(ctx, v),
         "pair" => pair::replay(ctx, v),
         "tag" | "opaque" => gram::replay(ctx, v),
-        "time" | "time-doc" | "time-mono" => time::replay(ctx, v),
+        "time" | "time-doc" | "time-mono" | "time-cli" => time::replay(ctx, v),
         "marker" | "marker-doc" | "marker-cli" => marker::replay(ctx, v),
         "total" => total::replay(ctx, v),
         "spell" => spell::replay(ctx, v),
